@@ -70,6 +70,23 @@ class Loader(yaml.SafeLoader):
                     'found an invalid character code or number ({})'.format(
                         e), self.get_mark())
 
+    def scan_flow_scalar(self, style: Any) -> Any:
+        """Hook used by PyYAML's scanner to read a quoted scalar.
+
+        JSON writes a character outside the Basic Multilingual Plane as
+        two \\u escapes, a UTF-16 surrogate pair, and so do the JSON dump
+        functions unless ensure_ascii is off. PyYAML reads those as two
+        separate code points, put them together again.
+        """
+        token = super().scan_flow_scalar(style)
+        if style == '"':
+            token.value = re.sub(
+                    '[\ud800-\udbff][\udc00-\udfff]',
+                    lambda pair: cast(str, pair.group(0).encode(
+                        'utf-16', 'surrogatepass').decode('utf-16')),
+                    token.value)
+        return token
+
     def get_single_node(self) -> yaml.Node:
         """Hook used when loading a single document.
 
